@@ -209,10 +209,10 @@ Fin(st, n) ==
   CASE k = "probe" -> 0
     [] k \in OwnSlotKinds -> IF ~nd.f THEN 1 ELSE Fin(st, nd.d)
     [] k \in CellKinds \/ k = "mall" ->
-         IF nd.h # 0 THEN 2 ELSE IF ~nd.f THEN 1 ELSE Fin(st, nd.d)
+         IF RHeld(nd) THEN 2 ELSE IF ~nd.f THEN 1 ELSE Fin(st, nd.d)
     [] k = "suN" -> 0
     [] k = "subjobs" ->          \* Subject::is_finished = observers.rc_deref().is_none()
-         LET on == st.nodes[st.subj[nd.c].o] IN IF on.h # 0 THEN 2 ELSE IF on.f THEN 0 ELSE 1
+         LET on == st.nodes[st.subj[nd.c].o] IN IF RHeld(on) THEN 2 ELSE IF on.f THEN 0 ELSE 1
     [] k = "chan" -> IF nd.g THEN 1 ELSE 0
     [] OTHER -> Fin(st, nd.d)
 =============================================================================
